@@ -136,6 +136,20 @@ func makeScenarios(expr string, n int, docIdx int) []scenario {
 		}
 		return st, bodies
 	}, n})
+	// S7b: the same, on objects whose members are all numbers (value projections with calls succeed there)
+	out = append(out, scenario{"S7b same expression after earlier (also failing) searches, numeric-member objects", expr, func() (*scState, []func() interface{}) {
+		st := &scState{jp: compile()}
+		impl.Search(st.jp, spare(univJ(`{"p":"s","q":1,"r":[1],"s":null}`)))
+		impl.Search(st.jp, spare(univJ(`{"p":1,"q":2,"r":3}`)))
+		st.shared = snap.Roots{{Name: "expr", V: st.jp}, {Name: "globals", V: globals}}
+		var bodies []func() interface{}
+		for i := 0; i < n; i++ {
+			d := spare(univJ([]string{`{"p":1,"q":-2,"r":3}`, `{"p":-4,"q":5,"r":-6}`, `{"p":7,"q":8,"r":-9}`}[i%3]))
+			st.docs = append(st.docs, d)
+			bodies = append(bodies, searchBody(st.jp, d))
+		}
+		return st, bodies
+	}, n})
 	// S4: Compile racing with Search
 	out = append(out, scenario{"S4 Compile racing with Search", expr, func() (*scState, []func() interface{}) {
 		st := &scState{jp: compile()}
